@@ -136,6 +136,54 @@ def _instant(t: T, sec: T, usec: T):
     raise _NotLinear(sym.pretty(t))
 
 
+def check_segments(repo: Repo, run: Run, interp, ci) -> None:
+    """R11: the decoded message lists one parsed segment per raw segment, in order: the value stored under 'segments' is a list
+    comprehension over decomposed['seg'] itself - not over a slice, a filter or a reordering of it."""
+    fn = ci.methods.get("parse_decomposed")
+    if fn is None:
+        raise AnalysisError("anchor vanished: OsLogEvent.parse_decomposed")
+    rec = interp.run(ci.module, fn, self_cls=ci)
+    if rec.notes:
+        raise AnalysisError(f"parse_decomposed: unsupported construct {rec.notes[0]}")
+    dec = param(fn.args.args[1].arg) if fn.args.args and fn.args.args[0].arg in ("cls", "self") else param(fn.args.args[0].arg)
+    seg = T("sub", (dec, const("seg")))
+    try:
+        stores = unfold_dict(rec.return_term())
+    except AnalysisError:
+        raise
+    vals = [(v, cond) for k, v, cond in stores if k == const("segments")]
+    if len(vals) != 1:
+        raise AnalysisError(f"parse_decomposed: {len(vals)} stores under 'segments' recognised (expected one)")
+    v, cond = vals[0]
+    while v.op == "call" and v.a[0].op == "builtin" and v.a[0].a[0] in ("list", "tuple") and len(v.a[1]) == 1:
+        v = v.a[1][0]
+    if not (v.op == "comp" and v.a[0] in ("list", "gen") and len(v.a[2]) == 1):
+        raise AnalysisError(f"parse_decomposed: 'segments' is not a comprehension over the raw segments: {sym.pretty(v)[:80]}")
+    ev, it, conds = v.a[2][0]
+    src = it
+    how = []
+    while True:
+        if src.op == "call" and src.a[0].op == "builtin" and src.a[0].a[0] in ("list", "tuple", "iter") and len(src.a[1]) == 1:
+            src = src.a[1][0]
+        elif src.op == "slice":
+            how.append("a slice " + sym.pretty(src)[len(sym.pretty(src.a[0])):][:30])
+            src = src.a[0]
+        elif src.op == "call" and src.a[0].op == "builtin" and src.a[0].a[0] in ("reversed", "sorted", "set", "filter") and src.a[1]:
+            how.append(src.a[0].a[0] + "(...)")
+            src = src.a[1][-1]
+        else:
+            break
+    if src != seg:
+        raise AnalysisError(f"parse_decomposed: the segments are taken from {sym.pretty(src)[:60]}, not from the record's 'seg' list")
+    if conds:
+        how.append("a filter " + sym.pretty(conds[0])[:40])
+    ok = not how and sym.contains(v.a[1], ev)
+    run.ob("R11", MOD, "OsLogEvent.parse_decomposed", "one parsed segment per raw segment, in order", ok,
+           "" if ok else f"the decoded message is built over {', '.join(how) or 'something other than each raw segment'} of the record's "
+                         f"segments: segments are dropped or reordered",
+           line=fn.lineno, witness="a message with a trailing literal segment: 'copied %d bytes (done)' has two segments, one placeholder")
+
+
 def check_unix_date(run: Run, v: T, event: T, line: int) -> None:
     ud = T("call", (T("attr", (event, "pop")), (const("ud"),), ()))
     sec, usec = T("sub", (ud, const("sec"))), T("sub", (ud, const("usec")))
@@ -336,6 +384,8 @@ def check(repo: Repo, run: Run) -> None:
                            line=fn.lineno)
             else:
                 run.note(f"raw key {r!r} -> {fname} is not in the reviewed key table (new key: not judged)")
+    # R11: "message segments in order"
+    check_segments(repo, run, interp, ci)
     # R10: "the timestamp as the corresponding UTC instant"
     for k, v, cond in stores:
         if k.a[0] == "unix_date":
